@@ -17,6 +17,7 @@ re-expansion of derivatives, Jacobian cancellation, component-tensor removal, re
 import itertools
 import math
 import random
+import time
 
 import ufl
 import ufl.classes as C
@@ -423,8 +424,18 @@ def header(ctx_probe_kinv, td, g):
             "              end\n"
             "            | let a := fresh \"sq\" in set (a := fn f X) in * ]\n"
             "  end.\n"
+            "Ltac abs_un u :=\n"
+            "  repeat match goal with\n"
+            "  | |- context [u ?X] =>\n"
+            "      lazymatch X with context [u _] => fail | _ => idtac end;   (* innermost first *)\n"
+            "      first [ match goal with\n"
+            "              | a := u ?Y |- _ => replace (u X) with a by (unfold a; f_equal; ring)\n"
+            "              end\n"
+            "            | let a := fresh \"at\" in set (a := u X) in * ]\n"
+            "  end.\n"
+            "Ltac abs_all := abs_fn; abs_un abs; abs_un re; abs_un im; abs_un conj.\n"
             "Ltac finish := first [ reflexivity | ring\n"
-            "                     | abs_fn; first [ reflexivity | ring | field; nz_solve char0 ]\n"
+            "                     | abs_all; first [ reflexivity | ring | field; nz_solve char0 ]\n"
             "                     | field; nz_solve char0\n"
             "                     | repeat unify1; first [ reflexivity | ring | field; nz_solve char0 ] ].\n")
 
@@ -469,8 +480,10 @@ def run_end_to_end(run):
         if cases:
             run.sample({"case": cases[len(cases) // 2].name, "options": cases[len(cases) // 2].note,
                         "preprocessed_integrand": str(cases[len(cases) // 2].out)[:300]})
+        t0_ = time.time()
         failing = coqgen.emit_and_check(run, f"C01e2e_{cell[:3]}{g}", cases, extra_header=header(kinv, td, g),
                                         timeout=900)
+        run.extra.setdefault("e2e_group_wall_s", {})[f"{cell}{g}:{len(cases)}:{t0_:.0f}"] = round(time.time() - t0_)
         seen = set()
         for case, lemma, msg in failing:
             if case is None or case.name in seen:
@@ -505,8 +518,10 @@ def run_end_to_end(run):
                 continue
             cases.append(c)
             run.count_case(name)
+        t0_ = time.time()
         failing = coqgen.emit_and_check(run, f"C01e2eS_{cell[:3]}{g}", cases, extra_header=header(kinv, td, g),
                                         timeout=900)
+        run.extra.setdefault("e2e_group_wall_s", {})[f"{cell}{g}:{len(cases)}:{t0_:.0f}"] = round(time.time() - t0_)
         seen = set()
         for case, lemma, msg in failing:
             if case is None or case.name in seen:
@@ -541,8 +556,10 @@ def run_end_to_end(run):
                 continue
             cases.append(c)
             run.count_case(name)
+        t0_ = time.time()
         failing = coqgen.emit_and_check(run, f"C01e2eC_{cell[:3]}{g}", cases, extra_header=header(kinv, td, g),
                                         timeout=900)
+        run.extra.setdefault("e2e_group_wall_s", {})[f"{cell}{g}:{len(cases)}:{t0_:.0f}"] = round(time.time() - t0_)
         seen = set()
         for case, lemma, msg in failing:
             if case is None or case.name in seen:
